@@ -14,11 +14,20 @@ use refmodel::subject::RefSubject;
 use std::collections::BTreeMap;
 use std::fmt;
 
-#[derive(Clone, Debug, PartialEq)]
-pub struct Ep(pub u32);
+/// Endpoint identity is `PartialEq` (field 0). What `Display` prints is deliberately *not* the identity: it shows a
+/// per-request connection tag (field 1, taken from the request's token), so two requests of one endpoint may print
+/// differently and two endpoints may print alike - as with a socket address type whose Display omits the port or
+/// adds a session id. An implementation that uses Display for anything but logging is caught by it.
+#[derive(Clone, Debug)]
+pub struct Ep(pub u32, pub u32);
+impl PartialEq for Ep {
+    fn eq(&self, o: &Ep) -> bool {
+        self.0 == o.0
+    }
+}
 impl fmt::Display for Ep {
     fn fmt(&self, f: &mut fmt::Formatter<'_>) -> fmt::Result {
-        write!(f, "ep{}", self.0)
+        write!(f, "peer-{}", self.1)
     }
 }
 
@@ -155,7 +164,7 @@ fn limit_of(s: &Subject<Ep>, m: &RefSubject) -> u64 {
 
 fn request(ep: u32, tok: &[u8], path: &str, mid: u16) -> CoapRequest<Ep> {
     let mut r: CoapRequest<Ep> = CoapRequest::new();
-    r.source = Some(Ep(ep));
+    r.source = Some(Ep(ep, tok.first().copied().unwrap_or(0) as u32));
     if path.is_empty() {
         r.set_path(path);
     } else {
